@@ -189,6 +189,10 @@ def validity_spec(D_hint, x0, lb, ub, plb, pub):
 # C19: IterationHistory container model
 
 
+class Rec(list):
+    """marker: per-iteration record array (as opposed to a value stored with __setitem__)"""
+
+
 class HistoryModel:
     def __init__(self, keys):
         self.keys = set(keys)
@@ -205,7 +209,7 @@ class HistoryModel:
         if key not in self.keys:
             raise ValueError
         if self.d[key] is None:
-            self.d[key] = [None]
+            self.d[key] = Rec([None])
         a = self.d[key]
         while len(a) <= it:
             a.append(None)
